@@ -26,7 +26,10 @@ type specEnv struct {
 }
 
 func (fr *frame) baseEnv(st *state) *specEnv {
-	env := &specEnv{fr: fr, e: fr.e, vars: map[string]binding{}, cur: st, pkgPath: fr.fn.Pkg.Pkg.Path()}
+	env := &specEnv{fr: fr, e: fr.e, vars: map[string]binding{}, cur: st}
+	if fr.fn.Pkg != nil {
+		env.pkgPath = fr.fn.Pkg.Pkg.Path()
+	}
 	if fr.spec != nil {
 		env.pkgPath = fr.spec.PkgPath
 	}
@@ -706,8 +709,8 @@ func (env *specEnv) call(n *ast.CallExpr) (string, types.Type, error) {
 			return fmt.Sprintf("(forall ((%s Int)) %s)", bv, implies(rng, body)), tBool, nil
 		}
 		return fmt.Sprintf("(exists ((%s Int)) %s)", bv, and(rng, body)), tBool, nil
-	case "forallint", "existsint":
-		// forallint(v1, ..., vn, [pattern(t1, ..., tk),] body)
+	case "forallint", "existsint", "forallstr":
+		// forallint(v1, ..., vn, [pattern(t1, ..., tk),] body); forallstr binds string-sorted variables
 		if len(n.Args) < 2 {
 			return "", nil, fmt.Errorf("%s(vars..., [pattern(...),] body)", fname)
 		}
@@ -721,8 +724,13 @@ func (env *specEnv) call(n *ast.CallExpr) (string, types.Type, error) {
 			}
 			e.nbound++
 			bv := fmt.Sprintf("q%d.%s", e.nbound, id.Name)
-			env2 = env2.with(id.Name, binding{term: bv, kind: "int"})
-			decls = append(decls, "("+bv+" Int)")
+			if fname == "forallstr" {
+				env2 = env2.with(id.Name, binding{term: bv, typ: types.Typ[types.String]})
+				decls = append(decls, "("+bv+" Str)")
+			} else {
+				env2 = env2.with(id.Name, binding{term: bv, kind: "int"})
+				decls = append(decls, "("+bv+" Int)")
+			}
 		}
 		if len(decls) == 0 {
 			return "", nil, fmt.Errorf("%s: no bound variables", fname)
@@ -933,6 +941,11 @@ func (env *specEnv) call(n *ast.CallExpr) (string, types.Type, error) {
 			return app(">=", app("s.base", ts[0]), top), tBool, nil
 		}
 		return app(">=", ts[0], top), tBool, nil
+	case "cat": // cat(a, b): string concatenation
+		e.declareStrCat()
+		return app("gstr.cat", ts[0], ts[1]), types.Typ[types.String], nil
+	case "same": // same(a, b): identical values in the model (for strings: the same abstract string)
+		return eq(ts[0], ts[1]), tBool, nil
 	case "streq": // streq(s, t): same length and bytes
 		return env.e.strEq(ts[0], ts[1]), tBool, nil
 	}
